@@ -280,11 +280,13 @@ class Run:
 
     # ---- impl -> spec
     def record_and_validate(self, module, trace_module, cfg, n_files, n_events, heap="2g", timeout=900,
-                            record_module=None):
+                            record_module=None, seed_list=None):
         files = []
+        seeds = seed_list if seed_list is not None else [self.seed * 1000 + k for k in range(n_files)]
+        n_files = len(seeds)
         for k in range(n_files):
             out = os.path.join(WORK, "trace", "%s-%s-%d.ndjson" % (self.pid, module, k))
-            kh_record(record_module or module, self.seed * 1000 + k, n_events, out)
+            kh_record(record_module or module, seeds[k], n_events, out)
             files.append((k, out))
 
         def one(x):
@@ -322,7 +324,7 @@ class Run:
             self.trace_events += at - 1
             rec = json.loads(lines[at - 1])
             self.add_violation({"kind": "trace", "module": record_module or module, "trace_module": trace_module,
-                                "cfg": cfg, "seed": self.seed * 1000 + k, "n_events": n_events,
+                                "cfg": cfg, "seed": seeds[k], "n_events": n_events,
                                 "rejected_event": at, "records": [rec],
                                 "detail": {"variant": "trace:" + str(rec.get("ev")), "rec": rec}})
         log("  trace  %-24s %d files, %d events accepted so far" % (trace_module, self.trace_files, self.trace_events))
